@@ -107,6 +107,19 @@ def directed_truncation(chk):
         chk.violation("stale/sampler/sample_n_in", "the same seed gave different samples before and after the first sampling call", script={"directed": "truncated tail"},
                       sig={"call": "sampler.sample_n_in", "directed": "truncation"})
     chk.add_phase("directed history: distribution with a truncated tail (sums to 1 - 2e-8)", sum=sum(p0.values()))
+    # the same situation with outcomes that are actually drawn (seven weakly coupled modes: hops of probability 1e-5): a seeded call is
+    # reproducible on the re-normalising path too, whatever other users of the global generators did in between
+    U7 = expm(1j * 3.9e-3 * (np.ones((7, 7)) - np.eye(7)))
+    s7 = emu.Sampler(lw.Unitary(U7), lw.State([1, 1, 1, 0, 0, 0, 0]))
+    tot7 = sum(s7.probability_distribution.values())
+    chk.count(key="directed-truncation-seed")
+    ra = dict(s7.sample_N_inputs(600000, seed=5))
+    np.random.random(3)
+    rb = dict(s7.sample_N_inputs(600000, seed=5))
+    if ra != rb:
+        chk.violation("stale/sampler/sample_n_in", "sample_N_inputs(seed=5) on a distribution summing to %.10f gave two different results (%d outcomes differ)"
+                      % (tot7, sum(1 for k in set(ra) | set(rb) if ra.get(k) != rb.get(k))), script={"directed": "truncated tail, seeded"},
+                      sig={"call": "sampler.sample_n_in", "directed": "truncation_seed"})
 
 
 def directed_failed_recalculation(chk):
